@@ -5,7 +5,7 @@ from . import spec as S
 
 DEFAULTS = dict(
     n_steps=(3, 12), max_nodes=16, max_sel=5, max_opts=4,
-    p_sel=.4, p_merge=.2, p_cycle=.12, p_multi_start=.15, p_multi_choice=.1,
+    p_sel=.4, p_merge=.2, p_merge_back=0., p_edges_late=0., p_cycle=.12, p_multi_start=.15, p_multi_choice=.1,
     p_opt_existing=.15, p_single_opt=.06, p_dup_id=0.0,
     n_incompat=(0, 2), p_incompat=.5,
     p_constraint=0.0, n_conn=(0, 0), p_grp=.3, p_excl=.3, p_conn_cond=.6, p_side_cond=0., p_grp_open=0., max_side=3, max_side_total=5,
@@ -104,8 +104,8 @@ def _grow(rnd, o):
         elif r < o['p_sel'] + o['p_merge'] and len(named) > 2:
             u, v = rnd.sample(named, 2)
             iu, iv = named.index(u), named.index(v)
-            if iu > iv:
-                u, v = v, u
+            if iu > iv and not (o['p_merge_back'] > 0 and rnd.random() < o['p_merge_back']):
+                u, v = v, u     # (normally from the older to the newer node; p_merge_back also allows the reverse)
             if v not in start:
                 add_edge(u, v)
         elif r < o['p_sel'] + o['p_merge'] + o['p_cycle'] and len(named) > 2:
@@ -239,8 +239,11 @@ def _grow(rnd, o):
         else:
             add_edge(rnd.choice(named), m)
 
-    return S.normalize({'nodes': nodes, 'edges': edges, 'sel': sel, 'incompat': incompat,
-                        'constraints': cons, 'conn': conn, 'start': start})
+    out = {'nodes': nodes, 'edges': edges, 'sel': sel, 'incompat': incompat,
+           'constraints': cons, 'conn': conn, 'start': start}
+    if o['p_edges_late'] > 0 and rnd.random() < o['p_edges_late']:
+        out['edges_after_choices'] = True
+    return S.normalize(out)
 
 
 def _perm(start, edges):
